@@ -18,6 +18,10 @@
 //     compile otherwise) and becomes `ix x k`.
 //   * an `if`/`switch` without else continues with a copy of the statements that follow it.
 //   * `%` is Z.rem, `/` is Z.quot (Go truncates), `>>` is Z.shiftr, `&` Z.land, `|` Z.lor.
+//   * sync/atomic on an int64 cell (a *int64 parameter, or a field of the receiver passed as &lb.f): the cell is a
+//     Z threaded through the function and returned as an extra last result; AddInt64 / LoadInt64 / StoreInt64 /
+//     CompareAndSwapInt64 are their SEQUENTIAL meaning (one caller).  What interleaved callers do is the subject of
+//     the LTS models, whose atomic steps these functions are proved to compose (Proofs/GoFuncsAtomicProofs.v).
 // Anything else makes the function Untranslatable: the generated file then lacks the
 // definition and the refinement file fails to compile (fail closed).
 package main
@@ -47,6 +51,8 @@ var goliteTargets = []goliteTarget{
 	{"rpc/websocket/common.go", "makeHeader", "ws_makeHeader"},
 	{"rpc/websocket/common.go", "parseHeader", "ws_parseHeader"},
 	{"io/encode.go", "utf16Length", "io_utf16Length"},
+	{"rpc/plugins/cluster/cluster.go", "getIndex", "cluster_getIndex"},
+	{"rpc/plugins/loadbalance/round_robin_loadbalance.go", "RoundRobinLoadBalance.getIndex", "rr_getIndex"},
 	{"rpc/plugins/loadbalance/int_slice.go", "gcd", "lb_gcd"},
 }
 
@@ -63,6 +69,8 @@ func (t glType) coq() string {
 		return "byte"
 	case "bool":
 		return "bool"
+	case "cell":
+		return "Z"
 	default:
 		return "list byte"
 	}
@@ -82,6 +90,83 @@ type glCtx struct {
 	tmp     int
 	fuel    bool
 	hoist   []string // pending `match ixo ...` openers for the statement being translated
+	cells   []string // atomic int64 cells (pointer parameters, receiver fields), in order of first appearance
+	recv    string   // receiver name of a method
+}
+
+// cellOf: the cell an atomic operation's first argument denotes ("index" for a *int64 parameter, "lb_index" for &lb.index)
+func (c *glCtx) cellOf(e ast.Expr) string {
+	name := ""
+	switch t := e.(type) {
+	case *ast.Ident:
+		if ty, ok := c.env[t.Name]; ok && ty.kind == "cell" {
+			name = t.Name
+		}
+	case *ast.UnaryExpr:
+		if t.Op == token.AND {
+			if sel, ok := t.X.(*ast.SelectorExpr); ok {
+				if r, ok := sel.X.(*ast.Ident); ok && r.Name == c.recv && c.recv != "" {
+					name = r.Name + "_" + sel.Sel.Name
+					if _, known := c.env[name]; !known {
+						c.env[name] = glType{kind: "cell"}
+						c.cells = append(c.cells, name)
+					}
+				}
+			}
+		}
+	}
+	if name == "" {
+		glFail("atomic operation on something that is not a *int64 parameter or a receiver field: %s", c.src(e))
+	}
+	return name
+}
+
+func cellVar(name string) string { return name + "_cell" }
+
+// atomicCall: (hoisted prefix, Z-valued or bool-valued result term) of a sync/atomic call; ok=false if e is not one
+func (c *glCtx) atomicCall(e ast.Expr) (string, bool) {
+	call, ok := e.(*ast.CallExpr)
+	if !ok {
+		return "", false
+	}
+	sel, ok := call.Fun.(*ast.SelectorExpr)
+	if !ok {
+		return "", false
+	}
+	p, ok := sel.X.(*ast.Ident)
+	if !ok || p.Name != "atomic" {
+		return "", false
+	}
+	switch sel.Sel.Name {
+	case "AddInt64":
+		cell := cellVar(c.cellOf(call.Args[0]))
+		d := c.trZ(call.Args[1], true)
+		c.hoist = append(c.hoist, fmt.Sprintf("let %s := (%s + %s) in", cell, cell, d))
+		c.tmp++
+		t := fmt.Sprintf("t%d", c.tmp)
+		c.hoist = append(c.hoist, fmt.Sprintf("let %s := %s in", t, cell))
+		return t, true
+	case "LoadInt64":
+		cell := cellVar(c.cellOf(call.Args[0]))
+		c.tmp++
+		t := fmt.Sprintf("t%d", c.tmp)
+		c.hoist = append(c.hoist, fmt.Sprintf("let %s := %s in", t, cell))
+		return t, true
+	case "StoreInt64":
+		cell := cellVar(c.cellOf(call.Args[0]))
+		v := c.trZ(call.Args[1], true)
+		c.hoist = append(c.hoist, fmt.Sprintf("let %s := %s in", cell, v))
+		return "tt", true
+	case "CompareAndSwapInt64":
+		cell := cellVar(c.cellOf(call.Args[0]))
+		o, n := c.trZ(call.Args[1], true), c.trZ(call.Args[2], true)
+		c.tmp++
+		t := fmt.Sprintf("t%d", c.tmp)
+		c.hoist = append(c.hoist, fmt.Sprintf("let %s := (%s =? %s) in let %s := (if %s then %s else %s) in", t, cell, o, cell, t, n, cell))
+		return t, true
+	}
+	glFail("unsupported sync/atomic function %s", sel.Sel.Name)
+	return "", false
 }
 
 func (c *glCtx) ret() string {
@@ -109,6 +194,10 @@ func glTypeOf(e ast.Expr) glType {
 			return glType{kind: "bool"}
 		case "string":
 			return glType{kind: "bytes"}
+		}
+	case *ast.StarExpr:
+		if id, ok := t.X.(*ast.Ident); ok && id.Name == "int64" {
+			return glType{kind: "cell"}
 		}
 	case *ast.ArrayType:
 		if id, ok := t.Elt.(*ast.Ident); ok && (id.Name == "byte" || id.Name == "uint8") {
@@ -211,6 +300,12 @@ func (c *glCtx) typeOf(e ast.Expr) glType {
 		}
 		if sel, ok := t.Fun.(*ast.SelectorExpr); ok {
 			if p, ok := sel.X.(*ast.Ident); ok && p.Name == "crc32" && sel.Sel.Name == "ChecksumIEEE" {
+				return glType{kind: "int"}
+			}
+			if p, ok := sel.X.(*ast.Ident); ok && p.Name == "atomic" {
+				if sel.Sel.Name == "CompareAndSwapInt64" {
+					return glType{kind: "bool"}
+				}
 				return glType{kind: "int"}
 			}
 		}
@@ -322,6 +417,12 @@ func (c *glCtx) trZ(e ast.Expr, noHoist bool) string {
 			return fmt.Sprintf("(Z.quot %s %s)", x, y)
 		}
 	case *ast.CallExpr:
+		if v, ok := c.atomicCall(t); ok {
+			if noHoist {
+				glFail("atomic operation inside the right operand of && or ||")
+			}
+			return v
+		}
 		if id, ok := t.Fun.(*ast.Ident); ok && len(t.Args) == 1 {
 			switch id.Name {
 			case "len":
@@ -372,6 +473,14 @@ func (c *glCtx) trBytes(e ast.Expr) string {
 }
 
 func (c *glCtx) trBool(e ast.Expr, noHoist bool) string {
+	if call, ok := e.(*ast.CallExpr); ok {
+		if v, ok := c.atomicCall(call); ok {
+			if noHoist {
+				glFail("atomic operation inside the right operand of && or ||")
+			}
+			return v
+		}
+	}
 	switch t := e.(type) {
 	case *ast.ParenExpr:
 		return c.trBool(t.X, noHoist)
@@ -445,6 +554,19 @@ func hoistClosers(opened string) string {
 	return strings.Repeat(" end", strings.Count(opened, "match ixo"))
 }
 
+// withCells: the function's results followed by the final values of its atomic cells
+func (c *glCtx) withCells(parts []string) string {
+	for _, cell := range c.cellsAll() {
+		parts = append(parts, cellVar(cell))
+	}
+	if len(parts) == 1 {
+		return parts[0]
+	}
+	return "(" + strings.Join(parts, ", ") + ")"
+}
+
+func (c *glCtx) cellsAll() []string { return c.cells }
+
 func (c *glCtx) tupleOf(names []string) string {
 	if len(names) == 0 {
 		return "tt"
@@ -466,7 +588,20 @@ func (c *glCtx) fallthroughTerm() string {
 	if len(c.results) == 0 {
 		glFail("control reaches the end of a function without named results")
 	}
-	return "GRet " + c.tupleOf(c.results)
+	return "GRet " + c.resultTerm(nil)
+}
+
+// resultTerm: the returned values (nil: the named results) followed by the atomic cells
+func (c *glCtx) resultTerm(parts []string) string {
+	if parts == nil {
+		for _, n := range c.results {
+			parts = append(parts, coqIdent(n))
+		}
+	}
+	if len(c.cells) > 0 && c.inLoop {
+		glFail("return inside a loop of a function with atomic cells")
+	}
+	return c.withCells(parts)
 }
 
 func (c *glCtx) declare(name string, ty glType, nested bool) {
@@ -513,7 +648,7 @@ func (c *glCtx) trStmts(stmts []ast.Stmt, depth int) string {
 			if len(c.results) == 0 {
 				glFail("bare return without named results")
 			}
-			return c.ret() + " " + c.tupleOf(c.results)
+			return c.ret() + " " + c.resultTerm(nil)
 		}
 		if len(t.Results) != len(c.resTys) {
 			glFail("return arity")
@@ -523,10 +658,7 @@ func (c *glCtx) trStmts(stmts []ast.Stmt, depth int) string {
 			parts[i] = c.trVal(r, c.resTys[i])
 		}
 		h := c.flush()
-		body := parts[0]
-		if len(parts) > 1 {
-			body = "(" + strings.Join(parts, ", ") + ")"
-		}
+		body := c.resultTerm(parts)
 		return h + c.ret() + " " + body + hoistClosers(h)
 	case *ast.DeclStmt:
 		gd, ok := t.Decl.(*ast.GenDecl)
@@ -627,6 +759,11 @@ func (c *glCtx) trStmts(stmts []ast.Stmt, depth int) string {
 		return c.trStmts(append([]ast.Stmt{chain}, rest...), depth)
 	case *ast.ForStmt:
 		return c.trFor(t, rest, depth)
+	case *ast.ExprStmt:
+		if _, ok := c.atomicCall(t.X); ok {
+			h := c.flush()
+			return h + "\n  " + c.trStmts(rest, depth) + hoistClosers(h)
+		}
 	}
 	glFail("unsupported statement %T", s)
 	return ""
@@ -855,22 +992,62 @@ func goliteOne(repo string, tg goliteTarget) (def string, reason string) {
 		return "", "parse error: " + err.Error()
 	}
 	var fd *ast.FuncDecl
+	recvType, fname := "", tg.Func
+	if i := strings.Index(tg.Func, "."); i >= 0 {
+		recvType, fname = tg.Func[:i], tg.Func[i+1:]
+	}
 	for _, d := range f.Decls {
-		if x, ok := d.(*ast.FuncDecl); ok && x.Recv == nil && x.Name.Name == tg.Func {
+		x, ok := d.(*ast.FuncDecl)
+		if !ok || x.Name.Name != fname {
+			continue
+		}
+		if recvType == "" && x.Recv == nil {
 			fd = x
+		}
+		if recvType != "" && x.Recv != nil && len(x.Recv.List) == 1 {
+			rt := x.Recv.List[0].Type
+			if st, ok := rt.(*ast.StarExpr); ok {
+				rt = st.X
+			}
+			if id, ok := rt.(*ast.Ident); ok && id.Name == recvType {
+				fd = x
+			}
 		}
 	}
 	if fd == nil || fd.Body == nil {
 		return "", "function not found"
 	}
 	c := &glCtx{fset: fset, env: map[string]glType{}}
+	if fd.Recv != nil && len(fd.Recv.List[0].Names) == 1 {
+		c.recv = fd.Recv.List[0].Names[0].Name
+	}
 	var params []string
 	for _, fl := range fd.Type.Params.List {
 		ty := glTypeOf(fl.Type)
 		for _, n := range fl.Names {
 			c.env[n.Name] = ty
+			if ty.kind == "cell" {
+				c.cells = append(c.cells, n.Name)
+				params = append(params, fmt.Sprintf("(%s : Z)", cellVar(n.Name)))
+				continue
+			}
 			params = append(params, fmt.Sprintf("(%s : %s)", coqIdent(n.Name), ty.coq()))
 		}
+	}
+	// receiver fields used as atomic cells become parameters too (found by scanning the body)
+	nparamCells := len(c.cells)
+	ast.Inspect(fd.Body, func(x ast.Node) bool {
+		if call, ok := x.(*ast.CallExpr); ok {
+			if sel, ok := call.Fun.(*ast.SelectorExpr); ok {
+				if p, ok := sel.X.(*ast.Ident); ok && p.Name == "atomic" && len(call.Args) > 0 {
+					c.cellOf(call.Args[0])
+				}
+			}
+		}
+		return true
+	})
+	for _, cell := range c.cells[nparamCells:] {
+		params = append(params, fmt.Sprintf("(%s : Z)", cellVar(cell)))
 	}
 	prologue := ""
 	if fd.Type.Results == nil {
@@ -893,6 +1070,9 @@ func goliteOne(repo string, tg goliteTarget) (def string, reason string) {
 	rts := make([]string, len(c.resTys))
 	for i, t := range c.resTys {
 		rts[i] = t.coq()
+	}
+	for range c.cells {
+		rts = append(rts, "Z")
 	}
 	rt := strings.Join(rts, " * ")
 	if c.fuel {
